@@ -1,10 +1,11 @@
 D = {'QM_STR_CAP': 14, 'QM_LIST_CAP': 4, 'QM_HASH_CAP': 4, 'QM_JSON_CAP': 13, 'QM_JSON_POOL': 1}
 JOBS = [
-    dict(name='sentry', src='c18.cpp', fn='h_sentry', defines=dict(D, VF_MLEN=3), unwind=20, timeout=1800, mem=28),
+    dict(name='sentry_small', src='c18.cpp', fn='h_sentry', defines=dict(D, VF_MLEN=1, VF_NATTR=1), unwind=20, timeout=1200, mem=16),
+    dict(name='sentry', src='c18.cpp', fn='h_sentry', defines=dict(D, VF_MLEN=3), unwind=20, timeout=2400, mem=28, tiers=['thorough']),
     dict(name='sentry_ids', src='c18.cpp', fn='h_sentry_ids', defines=dict(D), unwind=20, timeout=600),
     dict(name='sentry_cut100', src='c18.cpp', fn='h_sentry', defines=dict(D, QM_STR_CAP=104, VF_LONG=1), unwind=108, timeout=2400, cbmc_extra=['--max-field-sensitivity-array-size', '128'], tiers=['thorough'], mem=30),
 ]
-BOUNDS = {'quick': 'every message of <=3 arbitrary UTF-16 units, 5 types, 5 category cases (null, empty, default, other, Default), null/non-null file and function, every set of <=3 attributes drawn from the 8 routed names and 4 other names (two colliding with extra keys) with arbitrary 1-unit values; two consecutive events for id freshness',
+BOUNDS = {'quick': 'every message of <=3 arbitrary UTF-16 units, 5 types, 6 category cases (null, empty, default, other, Default, defaults), null/non-null file and function, every set of <=3 attributes drawn from the 8 routed names and 4 other names (two colliding with extra keys) with arbitrary 1-unit values; two consecutive events for id freshness',
           'thorough': 'additionally messages of 98..103 units around the 100-character fingerprint cut'}
 OUTSIDE = 'JSON text validity and the hexadecimal / ISO-8601 text forms are Qt (QJsonDocument, QUuid, QDateTime): assumed; uniqueness of ids over many events is QUuid::createUuid (modelled as fresh per call)'
 ASSUMPTIONS = ['QUuid::createUuid returns a fresh id per call', 'QDateTime::toUTC/toString(ISODate) are opaque but deterministic functions of the message time', 'QJsonDocument round trip (see C13)']
